@@ -358,6 +358,15 @@ class C12(Prop):
                 k["expire"] = rng.choice([0, 100])
                 k["noreply"] = rng.choice([False, True])
             steps.append({"t": "call", "m": m, "a": a, "k": k})
+            if flavour == "failing" and rng.random() < 0.45:
+                # let the retry window elapse so that the workload also performs the retries and the eviction
+                steps.append({"t": "advance", "dt": 1.5})
+            if flavour == "failing" and vname is not None and rng.random() < 0.25:
+                vk = [kk for kk in keys if refhash.owner(names, split_pair(kk)[0]) == vname]
+                if vk:
+                    ks = rng.sample(vk, min(len(vk), rng.randint(1, 3)))
+                    steps.append({"t": "call", "m": "set_many", "a": [E({kk: val() for kk in ks})],
+                                  "k": {"noreply": False}})
             if spares and rng.random() < 0.15:
                 steps.append({"t": "call", "m": "add_server", "a": [E(spares.pop())], "k": {}})
         if degraded:
